@@ -47,6 +47,43 @@ struct Payload
     }
 };
 
+// A payload whose constructor throws after one of its members has been built: no object of this type ever comes
+// into being, so its destructor must never run, and the member is destroyed exactly once (by the unwinding).
+static long g_part_built = 0, g_part_destroyed = 0, g_throwing_dtor_runs = 0;
+struct Part
+{
+    unsigned magic = 0xFACADEu;
+    Part()
+    {
+        ++g_part_built;
+    }
+    ~Part()
+    {
+        if (magic != 0xFACADEu)
+            g_wrong = true;
+        magic = 0;
+        ++g_part_destroyed;
+    }
+};
+template <int Tag>
+struct ThrowingPayload
+{
+    Part part;
+    int tag = Tag;
+    ThrowingPayload()
+    {
+        throw std::runtime_error("constructor failed");
+    }
+    explicit ThrowingPayload(int)
+    {
+        throw std::runtime_error("constructor failed");
+    }
+    ~ThrowingPayload()
+    {
+        ++g_throwing_dtor_runs;
+    }
+};
+
 static std::string dead_str()
 {
     if (g_dead.empty())
@@ -125,6 +162,27 @@ static std::string run_quaint(const std::string& ops)
                             *c = nitro::lang::make_quaint<Payload<2>>();
                             break;
                         }
+                    }
+                }
+                else if (t[0] == "mkx")
+                {
+                    auto c = cell(std::stoul(t[1]));
+                    if (c)
+                    {
+                        long built = g_part_built, destroyed = g_part_destroyed, runs = g_throwing_dtor_runs;
+                        try
+                        {
+                            if (std::stoi(t[2]) % 2)
+                                *c = nitro::lang::make_quaint<ThrowingPayload<1>>(7);
+                            else
+                                *c = nitro::lang::make_quaint<ThrowingPayload<0>>();
+                            g_wrong = true; // the constructor threw: there is nothing to own
+                        }
+                        catch (std::runtime_error&)
+                        {
+                        }
+                        if (g_throwing_dtor_runs != runs || g_part_built - built != 1 || g_part_destroyed - destroyed != 1)
+                            g_wrong = true;
                     }
                 }
                 else if (t[0] == "mv")
